@@ -146,7 +146,7 @@ def run(ctx):
     q = ctx.quick
     rng = ctx.rng
     items, meta = [], []
-    for n in range(120 if q else 1500):
+    for n in range(120 if q else 450):
         for case in (pe_case, elf_case):
             it, desc = case(rng)
             # the slots field must not be an empty list of unknown element type for the judge: keep a neutral entry
